@@ -10,7 +10,7 @@ rendering."""
 import re
 
 from ..common import field_accesses, is_derived_impl, lib_reachable, short, where
-from ..exprs import strip
+from ..exprs import inline_calls, strip
 from ..mirlib import Expr, Program, expr_str, op_place
 
 SETTINGS = "settings::Settings"
@@ -200,7 +200,8 @@ def e4(run):
     if s[0] != "agg" or len(s[3]) != 3:
         run.bad("C18.E4", "sibling-shape", where(prog.bodies[need["get_node_with_size"]]), "get_node_with_size does not return (node, w, h)")
         return
-    s_node = drop_blocks(dict(s[3])["0"])
+    # delegation (the sized builder calling the override builder with get_size's values) is inlined away
+    s_node = drop_blocks(strip(inline_calls(prog, dict(s[3])["0"], keep=r"^(?!.*CellBuffer::get_node_override_size$).*$", depth=1)))
     gs = need["get_size"]
 
     def sz(e):
@@ -238,7 +239,13 @@ def e4(run):
         if p not in prog.bodies:
             run.missing("C18.E4", p)
             return
-        ep[n] = [drop_blocks(strip(r)) for r in Expr(prog, p).returns()]
+        # helper extraction and delegation between the entry points are made invisible: crate-local calls are
+        # inlined down to the node builders
+        flat = []
+        for r in Expr(prog, p).returns():
+            x = strip(inline_calls(prog, r, keep=r"get_node_with_size$|get_node_override_size$|convert::From<|Default>::default$"))
+            flat.extend(strip(y) for y in x[1]) if x[0] == "phi" else flat.append(x)
+        ep[n] = [drop_blocks(x) for x in flat]
 
     def rendered(rs, method_re):
         """(node expr) if the returned string is produced by exactly one sauron render call"""
@@ -256,8 +263,8 @@ def e4(run):
 
     conv = lambda argi: ("call", None)
     t = ep["to_svg"]
-    if len(t) == 1 and t[0][0] == "call" and t[0][1] == "svgbob::to_svg_string_pretty" and t[0][2] == (("param", 1, ()),):
-        run.ok("C18.E4", "to_svg = to_svg_string_pretty(ascii)", where(prog.bodies["svgbob::to_svg"]))
+    if t == ep["to_svg_string_pretty"]:
+        run.ok("C18.E4", "to_svg = to_svg_string_pretty(ascii) (same expression after inlining)", where(prog.bodies["svgbob::to_svg"]))
     else:
         run.bad("C18.E4", "sibling-differs/to_svg", where(prog.bodies["svgbob::to_svg"]), "to_svg is `%s`" % " | ".join(expr_str(x) for x in t)[:160])
     pn = rendered(ep["to_svg_string_pretty"], r"Node<MSG>>::render$")
@@ -277,8 +284,10 @@ def e4(run):
     cb_from = lambda e: strip(e)[0] == "call" and re.search(r"CellBuffer as core::convert::From<&str>>::from$", strip(e)[1]) and strip(e)[2] == (("param", 1, ()),)
     if pn is not None:
         e = strip(pn)
-        if e[0] == "call" and e[1] == need["get_node"] and cb_from(e[2][0]):
-            run.ok("C18.E4", "pretty = render(CellBuffer::from(ascii).get_node())", where(prog.bodies["svgbob::to_svg_string_pretty"]))
+        okp = e[0] == "field" and e[2] == ("0",) and strip(e[1])[0] == "call" and strip(e[1])[1] == need["get_node_with_size"] and \
+            cb_from(strip(e[1])[2][0]) and strip(strip(e[1])[2][1])[0] == "call" and re.search(r"Settings as core::default::Default>::default$", strip(strip(e[1])[2][1])[1])
+        if okp:
+            run.ok("C18.E4", "pretty = render(CellBuffer::from(ascii).get_node_with_size(default settings).0)", where(prog.bodies["svgbob::to_svg_string_pretty"]))
         else:
             run.bad("C18.E4", "entry-node/to_svg_string_pretty", where(prog.bodies["svgbob::to_svg_string_pretty"]), "renders `%s`" % expr_str(e))
     if sn is not None:
